@@ -208,7 +208,7 @@ Proof.
 Qed.
 
 (* Three Adds; the run loop handles the first; Close gets the lock between two iterations. *)
-Definition wedge_cfg : cfg := mkcfg 500000000 5000000000 None.
+Definition wedge_cfg : cfg := default_cfg.   (* the package defaults *)
 Definition wedge_schedule : list event :=
   [Model.Add; Model.Add; Model.Add; LoopTop; TakeToken; HandleToken; CloseCall; CloseLock].
 
